@@ -4,7 +4,7 @@
    proved.  What is proved is the logic the property rests on. *)
 From Coq Require Import String List Bool.
 From Verif Require Import Base.Bytes Model.KeyTree Model.CallTree Model.Tracer Model.Exec Proofs.CallTree_proofs Proofs.Exec_proofs
-  Gen.GenProps Gen.GCow Gen.G17.
+  Model.Cancel Proofs.Cancel_proofs Gen.GenProps Gen.GCow Gen.Flow Gen.GFlow Gen.G17.
 Import ListNotations.
 
 Theorem C17_source_reviewed : group_ok 17 = true.
@@ -32,3 +32,53 @@ Theorem C17_cancelled_run_closes_bookkeeping : forall W M HT can_transfer transf
   ct_wf (tc (xt s)) -> ct_wf (tc (xt s')) /\ current (tc (xt s')) = current (tc (xt s)).
 Proof. exact call_closes_tree. Qed.
 Print Assumptions C17_cancelled_run_closes_bookkeeping.
+
+(** CANCELLATION STOPS PROMPTLY.  The control skeleton of the interpreter loop (Model/Cancel.v): which functions assign the
+    program counter and which read or write the abort flag is read from the syntax trees on every run ... *)
+Theorem C17_only_jumps_assign_pc_and_only_cancel_sets_abort :
+  pc_writers = pc_writers_reviewed /\ abort_users = abort_users_reviewed.
+Proof. exact flow_ok. Qed.
+Print Assumptions C17_only_jumps_assign_pc_and_only_cancel_sets_abort.
+
+(** ... and under exactly these premises — only JUMP/JUMPI move the program counter other than forwards, STOP (also the
+    implicit one behind the code) ends the frame, the flag is never cleared — for EVERY instruction semantics, state and
+    moment k at which another goroutine's Cancel becomes visible: from that iteration on the frame visits a prefix of the
+    straight-line path through its code (no jump is taken any more), so it makes at most length(code) - pc + 1 further
+    iterations, and it does stop (the model's fuel is never what ends it). *)
+Theorem C17_cancelled_frame_stops_within_code_length :
+  forall (St : Type) (code : bytes) (exec : N -> nat -> St -> eff St) (abort_at : nat -> bool),
+  (forall op pc s d s', exec op pc s = JumpTo d s' -> is_jump_op op = true) ->
+  (forall pc s, exists s', exec 0%N pc s = End s') ->
+  (forall k, abort_at k = true -> abort_at (S k) = true) ->
+  forall k pc s, abort_at k = true ->
+  (forall fuel t r, loop St code exec abort_at fuel k pc s = Some (t, r) ->
+     is_prefix t (straight_from code pc) = true /\ (length t <= (length code - pc) + 1)%nat) /\
+  (forall fuel, (length code - pc < fuel)%nat -> loop St code exec abort_at fuel k pc s <> None).
+Proof.
+  intros St code exec abort_at H1 H2 H3 k pc s Hab. split.
+  - intros fuel t r L. split.
+    + eapply cancelled_frame_walks_straight; eauto.
+    + eapply cancelled_frame_stops_within_code_length; eauto.
+  - intros fuel Hf. eapply cancelled_frame_terminates; eauto.
+Qed.
+Print Assumptions C17_cancelled_frame_stops_within_code_length.
+
+(** the whole frame: if the flag is visible by iteration k0, the loop makes at most k0 + length(code) + 1 iterations *)
+Theorem C17_frame_iterations_bounded_after_cancel :
+  forall (St : Type) (code : bytes) (exec : N -> nat -> St -> eff St) (abort_at : nat -> bool),
+  (forall op pc s d s', exec op pc s = JumpTo d s' -> is_jump_op op = true) ->
+  (forall pc s, exists s', exec 0%N pc s = End s') ->
+  (forall k, abort_at k = true -> abort_at (S k) = true) ->
+  forall fuel k0 pc s t r, abort_at k0 = true -> loop St code exec abort_at fuel 0 pc s = Some (t, r) ->
+  (length t <= k0 + length code + 1)%nat.
+Proof.
+  intros St code exec abort_at H1 H2 H3 fuel k0 pc s t r H0 L.
+  pose proof (frame_iterations_after_cancel St code exec abort_at H1 H2 H3 fuel k0 0 pc s t r H0 L). lia.
+Qed.
+Print Assumptions C17_frame_iterations_bounded_after_cancel.
+
+(** the premises are met by a concrete endless loop, which a Cancel stops at its next JUMP; without Cancel it never ends *)
+Example C17_cancel_premises_met : 
+  loop unit ex_code ex_exec ex_abort 100 0 0 tt = Some ([0; 2; 3; 5; 2; 3; 5]%nat, tt) /\
+  loop unit ex_code ex_exec (fun _ => false) 100 0 0 tt = None.
+Proof. exact ex_cancelled_loop. Qed.
